@@ -308,6 +308,10 @@ var failKinds = []failKind{
 	{"uncomputable-indirect-recursion", `{{if .N}}{{template "bad2" .N}}{{end}}{{.S}}<script>`},
 	{"uncomputable-recursion-3-cycle", `{{if .S}}<a title="{{template "bad3" .}}{{end}}`},
 	{"unbalanced-js-template", "<script>var a = `x</script>"},
+	{"nontext-end-after-action-in-url", `<a href="{{.S}}`},
+	{"nontext-end-after-action-in-title", `<a title='{{.S}}`},
+	{"bodyless-callee", `<p>{{.S}}</p>{{template "nobody" .}}<p>tail</p>`},
+	{"bodyless-callee-in-branch", `<p>{{.S}}</p>{{if .L}}{{template "nobody" .}}{{end}}<p>tail</p>`},
 	{"action-in-js-template", "<script>var b = `{{.S}}`;</script>"},
 	{"action-in-js-template-substitution", "<script>var b = `a${ {{.S}} }`;</script>"},
 	{"action-in-js-template-after-escaped-backslash", "<script>var a = `\\\\`; var b = `{{.S}}`; var c = `\\\\`;</script>"},
@@ -344,6 +348,7 @@ func c05Scenario(k failKind) *hist.Scenario {
 	return &hist.Scenario{
 		Name:     "fail-" + k.name,
 		RootName: "root",
+		Bodyless: []string{"nobody"}, // a name that New has associated with the set and that never got a body
 		Init: `{{define "bad"}}{{mark "bad"}}BAD` + k.bad + `{{end}}` +
 			`{{define "cb"}}{{mark "cb"}}<p>CB{{template "bad" .}}</p>{{end}}` +
 			`{{define "ccb"}}{{mark "ccb"}}<i>CCB{{template "cb" .}}</i>{{end}}` +
